@@ -234,6 +234,11 @@ class Gen:
         rng = self.rng
         ls = sc.of('L')
         k = rng.random()
+        if rng.random() < self.p.get('const_list_prob', 0):
+            # a list of literals: statically known, so a constant folder is tempted to propagate it
+            n = rng.choice([1, 2, 3])
+            self.features.add('const_list')
+            return '[' + ', '.join(rng.choice(self.p['literal_pool']) for _ in range(n)) + ']', n
         if k < 0.35 or not ls:
             n = rng.choice([1, 2, 3, 4])
             return '[' + ', '.join(self.real(sc, d - 1) for _ in range(n)) + ']', n
